@@ -487,6 +487,15 @@ impl Quantity {
             return Ok((self.value, other.value));
         }
 
+        // A zero can be expressed in any unit (this is what makes the polymorphic
+        // literal `0` comparable with every quantity, e.g. `x > 0`).
+        if other.is_zero() {
+            return Ok((self.value, other.convert_to(&self.unit)?.value));
+        }
+        if self.is_zero() {
+            return Ok((self.convert_to(&other.unit)?.value, other.value));
+        }
+
         let (self_base, self_factor) = self.unit.to_base_unit_representation();
         let (other_base, other_factor) = other.unit.to_base_unit_representation();
 
